@@ -84,7 +84,7 @@ fn blocked(w: &World, a: usize, b: usize) -> bool {
 
 /// C14 on one leg of an atomic handshake: `reply` was computed by the sender from the digest the
 /// receiver put on the wire (`req_digest`), and processed by the unchanged receiver.
-fn check_agreement(w: &mut World, recv: usize, send: usize, req_digest: &[codec::WDigestEntry], reply: &WMsg, send_pre: &BTreeMap<usize, (u64, u64)>, send_sched: &BTreeSet<usize>, leg: &str) {
+fn check_agreement(w: &mut World, recv: usize, send: usize, req_digest: &[codec::WDigestEntry], reply: &WMsg, send_pre: &BTreeMap<usize, (u64, u64)>, send_sched: &BTreeSet<usize>, recv_pre: &BTreeMap<usize, CopyS>, leg: &str) {
     let Ok(nodes) = codec::group_ops(codec::msg_ops(reply)) else { return };
     let post = frontiers(w, recv);
     let mut in_reply: BTreeSet<usize> = BTreeSet::new();
@@ -113,11 +113,18 @@ fn check_agreement(w: &mut World, recv: usize, send: usize, req_digest: &[codec:
             w.fail(&["C14"], "agree.not_ahead", format!("{leg}: slot{send} sent a delta for member{x} up to {} to a receiver already at {}", nd.max_version, r0.1));
         }
         let p = post.get(&x).copied().unwrap_or((0, 0));
+        // a wipe is observed, not inferred from the watermark alone: the watermark became the delta's and no old
+        // entry survived that the delta does not itself carry
+        let wiped = nd.from == 0 && p.0 > r0.0 && p.0 == nd.last_gc && {
+            let now = w.slots[recv].snap.copies.get(&x);
+            let survivors = recv_pre.get(&x).map(|c0| c0.kvs.iter().filter(|(k, e0)| now.and_then(|c| c.kvs.get(*k)).map(|e1| e1.ver == e0.ver).unwrap_or(false) && !nd.kvs.iter().any(|kv| &kv.key == *k && kv.version == e0.ver)).count()).unwrap_or(0);
+            survivors == 0
+        };
         if p <= r0 {
             w.fail(&["C14", "C01"], "agree.refused", format!("{leg}: slot{recv} at (gc {}, mv {}) for member{x} did not advance after the delta (gc {}, from {}, max {}) slot{send} computed from its digest; now (gc {}, mv {})", r0.0, r0.1, nd.last_gc, nd.from, nd.max_version, p.0, p.1));
-        } else if reset_expected && p.0 != nd.last_gc {
-            w.fail(&["C14"], "agree.reset_not_applied", format!("{leg}: member{x}: reset expected, receiver watermark {} != delta watermark {}", p.0, nd.last_gc));
-        } else if !reset_expected && p.0 != r0.0 {
+        } else if reset_expected && !wiped {
+            w.fail(&["C14"], "agree.reset_not_applied", format!("{leg}: member{x}: reset expected, receiver watermark {} (delta watermark {}) and the copy was not rebuilt", p.0, nd.last_gc));
+        } else if !reset_expected && wiped {
             w.fail(&["C14"], "agree.needless_wipe", format!("{leg}: member{x}: receiver at (gc {}, mv {}) was wiped (watermark now {}) although no reset was due (sender watermark {})", r0.0, r0.1, p.0, nd.last_gc));
         }
     }
@@ -150,16 +157,18 @@ pub fn monitored_handshake(w: &mut World, a: usize, b: usize) {
     let deliver = deliverable(w, a, b).or(deliverable(w, b, a));
     let skip = w.cfg.big_values && (blocked(w, a, b) || blocked(w, b, a));
     let sched_a = w.slots[a].snap.sched.clone();
+    let a_copies_pre = w.slots[a].snap.copies.clone();
     // the SYN as put on the wire
     let Some(syn) = w.emit_syn(a) else { return };
     let syn_w = codec::decode_msg(&syn).ok().map(|x| x.0);
     let Some(synack) = w.process(b, a, &syn) else { return };
     let b_after_syn = frontiers(w, b);
+    let b_copies_after_syn = w.slots[b].snap.copies.clone();
     let sched_b = w.slots[b].snap.sched.clone();
     let synack_w = codec::decode_msg(&synack).ok().map(|x| x.0);
     let ack = w.process(a, b, &synack);
     if let (Some(WMsg::Syn { digest, .. }), Some(sa)) = (&syn_w, &synack_w) {
-        check_agreement(w, a, b, digest, sa, &b_after_syn, &sched_b, "SYN-ACK");
+        check_agreement(w, a, b, digest, sa, &b_after_syn, &sched_b, &a_copies_pre, "SYN-ACK");
     }
     let a_after_synack = frontiers(w, a);
     if let Some(ack) = ack {
@@ -167,7 +176,7 @@ pub fn monitored_handshake(w: &mut World, a: usize, b: usize) {
         let _ = w.process(b, a, &ack);
         if let (Some(WMsg::SynAck { digest, .. }), Some(ak)) = (&synack_w, &ack_w) {
             let sched_a_now = sched_a.clone();
-            check_agreement(w, b, a, digest, ak, &a_after_synack, &sched_a_now, "ACK");
+            check_agreement(w, b, a, digest, ak, &a_after_synack, &sched_a_now, &b_copies_after_syn, "ACK");
         }
     }
     w.stats.inc("monitored_handshakes");
